@@ -180,7 +180,7 @@ class Check(E3Check):
     leaks = True
     asan_share = 1
     mc_workers = 2
-    rule = ("Hypothesis recipe -> program over a generated queue graph (serial/concurrent queues chained through targets, some created initially inactive with a target at "
+    rule = ("part 1 (queues): Hypothesis recipe -> program over a generated queue graph (serial/concurrent queues chained through targets, some created initially inactive with a target at "
             "creation, some retargeted before activation) in which every queue has a context + finalizer and some have queue-specific data with destructors. Each queue "
             "is used directly only by its owner thread; items only touch queues their own execution keeps alive. Lifetime stress: extra balanced retain/release pairs, "
             "dispatch_set_context updates, and the application's LAST release placed right after the owner's last use - i.e. while items, dispatch_after blocks or group "
@@ -188,12 +188,38 @@ class Check(E3Check):
             "LeakSanitizer at exit. Oracles: no ASan/LSan report or crash; each finalizer exactly once, after the application's last release began, after every item of "
             "the queue ended, after every queue that targets it was finalised, on its target queue, with the context version current at that time; afterwards the "
             "memory is poisoned (really freed). Non-trivial: the last application release began while an item of that queue was still pending or running; distinct = "
-            "distinct program texts.")
+            "distinct program texts. Part 2 (sources, props/C17s.py, dvs executor under ASan+LSan; its rule is recorded under coverage.part2_sources): sources of every "
+            "type with context + finalizer, owner-driven, last release at a generated point while handlers are pending/running; finalizer exactly once, after the "
+            "release and after every handler returned, with the right context, on the target queue.")
     assumptions = ["memory safety as far as AddressSanitizer / LeakSanitizer see it", "one-sided stamp logic (DESIGN S2)"]
     G = Grammar()
 
+    quick_budget_s = 32.0
+    thorough_budget_s = 600.0
+
     def variant_for(self, widx, kind):
         return "hook-asan"
+
+    def pre_run(self, rep, tier, seed):
+        """part 2: source lifetimes (props/C17s.py, dvs executor, ASan + LSan), merged into this check's evidence"""
+        from driver import core
+        from props import C17s
+        sub = core.Report(self.prop, tier, seed)
+        sub.coverage["rule"] = ""
+        rc = C17s.CHECK.campaign(sub, tier, seed, 20.0 if tier == "quick" else 300.0, with_corpus=False)
+        for v in sub.violations:
+            rep.add_violation(v)
+        rep.notes += sub.notes
+        c = sub.coverage
+        return dict(evaluations=c["evaluations"], distinct_nontrivial=c["distinct_nontrivial"], classes=c.get("classes", {}), samples=c.get("samples", [])[:2],
+                    other={"part2_sources": dict(evaluations=c["evaluations"], distinct_nontrivial=c["distinct_nontrivial"], outcomes=c.get("outcomes", {}), rule=C17s.CHECK.rule)})
+
+    def replay(self, path):
+        import json
+        if json.load(open(path)).get("module") == "C17s":
+            from props import C17s
+            return C17s.CHECK.replay(path)
+        return E3Check.replay(self, path)
 
     def recipe_strategy(self, tier):
         return qc.recipe_strategy(max_threads=3, max_ops=16 if tier == "quick" else 40, max_bodies=4, body_len=3, header=24, min_ops=4)
@@ -232,3 +258,5 @@ def replay(path):
 
 def setup():
     CHECK.build("hook-asan")
+    from props import C17s
+    C17s.CHECK.build("hook-asan")
